@@ -216,7 +216,7 @@ def c20(ctx, rep):
                     ['good_guarded_sub', 'good_early_return_sub', 'good_filter_map_sub', 'good_index', 'good_loop_index', 'good_unwrap'], 'SITE')
     col = controls.Collector()
     rules_total.check_term(col, fd, 'dbg')
-    controls.expect(rep, col, 'TERM', ['bad_unbounded_search', 'bad_drain_infinite', 'bad_loop_no_progress'],
+    controls.expect(rep, col, 'TERM', ['bad_unbounded_search', 'bad_drain_infinite', 'bad_loop_no_progress', 'bad_float_exit_loop'],
                     ['good_bounded_search', 'good_drain_bounded', 'good_loop_progress'], 'TERM')
     col = controls.Collector()
     rules_total.check_profile(col, fd, fr)
